@@ -101,6 +101,7 @@ fn main() {
         "C07" => checks::c07::run(&ctx),
         "C08" => checks::c08::run(&ctx),
         "C09" => checks::c09::run(&ctx),
+        "C10" => checks::c10::run(&ctx),
         _ => {
             eprintln!("unknown property {prop}");
             2
